@@ -52,6 +52,16 @@ PROPS["C10"] = dict(
                "Concurrent tree construction is not covered.",
     explanation=MIX)
 
+PROPS["C13"] = dict(
+    level="other", claimed=True,
+    level_text="Bounded differential execution of the real ReadAdapter against SliceReader (the reference semantics): every "
+               "operation sequence up to length 3 on short streams under several chunkings, and long seeded sequences across the "
+               "256-byte internal buffer. This is a bounded stand-in, not a proof: the type (RefCell<BufReader<&mut dyn Read>> "
+               "plus raw-pointer copies) is outside Verus and beyond what CBMC can unwind.",
+    level_note="Bounded as stated in coverage.native_bounded_standins; nothing is proved for all inputs. std::io::Cursor as a "
+               "byte source is not compared.",
+    explanation=MIX)
+
 NOT_APPLICABLE.update({
     "C01": "whole-protocol completeness over all AIR programs: no per-function contract carries it (DESIGN.md 4.C01)",
     "C02": "cryptographic soundness is probabilistic and adversarial, not a safety property of any function (DESIGN.md 4.C02)",
